@@ -1,6 +1,6 @@
 (* C11 — concurrent transactions never cross: replies reach only the request they answer.
    Property theorems only; model Bac.Ssm / Bac.SsmWorld, proofs in Bac.SsmFacts / Bac.SsmC11. *)
-From Bac Require Import Base PyRt Ssm SsmFacts SsmC04a SsmC11 SsmC11a SsmC11s SsmWorld.
+From Bac Require Import Base PyRt Ssm SsmFacts SsmC04a SsmC11 SsmC11a SsmC11s SsmC11p SsmWorld.
 Open Scope Z_scope.
 
 (* the id handed out is used by no live transaction to that peer, and it is an octet *)
@@ -106,6 +106,29 @@ Theorem C11_duplicate_request_not_reindicated : forall src dst a w n i t,
   w_delayed (deliver src dst a w) = w_delayed w.
 Proof. exact duplicate_request_world. Qed.
 Print Assumptions C11_duplicate_request_not_reindicated.
+
+(* sender side (round 6): the server bit of an Abort / SegmentAck names the role that sent it.  Whatever a CLIENT transaction
+   puts on the wire while handling a reply (c_confirmation), a submission or whole-request retry (c_indication) or a time-out
+   (c_process_task) — giving up with invalidApduInThisState included — carries srv = 0, so the peer looks it up among its
+   server transactions and never among its own client transactions with the same (peer, id) *)
+Theorem C11_client_frames_polarity : forall a st x,
+  In (Tx x) (h_outs (fst (c_confirmation a st))) \/ In (Tx x) (h_outs (fst (c_indication a st))) \/ In (Tx x) (h_outs (fst (c_process_task st))) ->
+  a_type x = 4 \/ a_type x = 7 -> In (Tx x) (h_outs st) \/ (a_srv x = false /\ to_client_side x = false).
+Proof. exact client_frames_polarity. Qed.
+Print Assumptions C11_client_frames_polarity.
+
+(* ... and a SERVER transaction (frame from the client, answer of the application, time-out) sends them with srv = 1, or sends
+   the very PDU it was handed back unchanged (the client's Abort echoed by segmented_request / segmented_response; the
+   application's own Abort) *)
+Theorem C11_server_frames_polarity : forall a st x,
+  In (Tx x) (h_outs (fst (s_indication a st))) \/ In (Tx x) (h_outs (fst (s_confirmation a st))) \/ In (Tx x) (h_outs (fst (s_process_task st))) ->
+  a_type x = 4 \/ a_type x = 7 -> In (Tx x) (h_outs st) \/ x = a \/ (a_srv x = true /\ to_client_side x = true).
+Proof. exact server_frames_polarity. Qed.
+Print Assumptions C11_server_frames_polarity.
+
+Example C11_client_abort_example :
+  h_outs (fst (c_confirmation (mk_cack true true 1 2 7 12 [1; 2]) waiting_client)) = [ToApp (mk_abort false 7 2); Tx (mk_abort false 7 2)].
+Proof. exact client_abort_example. Qed.
 
 Example C11_alloc_example :
   fst (get_next_invoke_id 255 5 [set_invoke_f 255 (new_ssm (mkNode 1 50 3 64 3 3000 1500 2 3000 false []) 5 true);
